@@ -77,6 +77,16 @@ impl SoundData for LSoundData {
 	}
 }
 
+/// sound data whose conversion into a sound fails (e.g. a decoder that cannot start): nothing may be reserved or leaked
+pub struct LFailingSoundData(Token);
+impl SoundData for LFailingSoundData {
+	type Error = ();
+	type Handle = ();
+	fn into_sound(self) -> Result<(Box<dyn Sound>, ()), ()> {
+		Err(())
+	}
+}
+
 pub struct LEffect {
 	_t: Token,
 }
@@ -173,6 +183,7 @@ pub struct Stats {
 	pub limit_errors: u64,
 	pub slots_reused: u64,
 	pub queries: u64,
+	pub failed_plays: u64,
 }
 
 struct SoundH {
@@ -265,6 +276,36 @@ fn history_case(ctx: &mut Ctx, r: &mut Rng, stats: &mut Stats) -> Result<(), Str
 				}
 			}
 			6 | 7 => {
+				// a play whose sound data fails to become a sound: an error value, and no slot is used up
+				if r.chance(0.2) {
+					let live = tracks.live_idx();
+					let data = LFailingSoundData(Token::new(&ledger));
+					if !live.is_empty() && r.chance(0.6) {
+						let ti = live[r.below(live.len() as u64) as usize];
+						let (h, pool, _) = tracks.items[ti].handle.as_mut().unwrap();
+						let res = h.play(data);
+						hist.push(format!("play failing sound data on track #{} -> {}", ti, res.is_ok()));
+						if res.is_ok() {
+							return Err(format!("play of sound data whose into_sound fails returned Ok [{}]", hist.join("; ")));
+						}
+						let n = h.num_sounds();
+						if n > pool.count() {
+							return Err(format!("after a failed play num_sounds() = {} but only {} sounds are alive or awaiting removal on the track [{}]", n, pool.count(), hist.join("; ")));
+						}
+					} else {
+						let res = rig.mgr.play(data);
+						hist.push(format!("play failing sound data on main -> {}", res.is_ok()));
+						if res.is_ok() {
+							return Err(format!("play of sound data whose into_sound fails returned Ok [{}]", hist.join("; ")));
+						}
+						let n = rig.mgr.main_track().num_sounds();
+						if n > main_sounds.count() {
+							return Err(format!("after a failed play main num_sounds() = {} but only {} sounds are alive or awaiting removal [{}]", n, main_sounds.count(), hist.join("; ")));
+						}
+					}
+					stats.failed_plays += 1;
+					continue;
+				}
 				// play a sound on the main track or on a live sub-track
 				let stop = Arc::new(AtomicBool::new(false));
 				let data = LSoundData(LSound { _t: Token::new(&ledger), stop: stop.clone(), value: 0.01 });
@@ -769,7 +810,7 @@ fn free_running_stress(ctx: &mut Ctx) {
 pub fn run(ctx: &mut Ctx) {
 	let sanitizer = ctx.engine == "miri" || ctx.engine == "tsan";
 	let only = ctx.only_case.as_ref().map(|x| x.0.clone());
-	let mut stats = Stats { ops: 0, callbacks: 0, limit_errors: 0, slots_reused: 0, queries: 0 };
+	let mut stats = Stats { ops: 0, callbacks: 0, limit_errors: 0, slots_reused: 0, queries: 0, failed_plays: 0 };
 	if !sanitizer {
 		let n = ctx.t(6_000u64, 600_000u64);
 		for i in 0..n {
@@ -859,6 +900,7 @@ pub fn run(ctx: &mut Ctx) {
 	ctx.count("history_ops", stats.ops);
 	ctx.count("history_callbacks", stats.callbacks);
 	ctx.count("limit_errors_returned", stats.limit_errors);
+	ctx.count("plays_of_failing_sound_data", stats.failed_plays);
 	ctx.count("slots_freed_and_reusable", stats.slots_reused);
 	ctx.count("count_queries_checked", stats.queries);
 	if ctx.sample_count() < 3 {
